@@ -11,7 +11,7 @@ MSPriorityQueue half (this file):
     and for every history in which no push overlaps a pop the verified lincheck (BPQueue capacity) must accept.
 FCPriorityQueue half: checks/C11fc.py (run_fc), owned by the flat-combining work, called when present.
 """
-import os, json, hashlib
+import os, sys, json, hashlib
 import vcheck, conc_check
 
 try:
@@ -21,7 +21,7 @@ except ImportError:
 
 VARIANTS = {0: "intrusive/dynamic_buffer", 1: "container/dynamic_buffer", 2: "intrusive/static_buffer",
             3: "container/static_buffer", 4: "container/default traits (sync::spin, backoff::Default)",
-            5: "intrusive/bounds-checked buffer of any size, Exp2=false (observable only)"}
+            5: "intrusive/bounds-checked buffer of any size, Exp2=false"}
 NONPOW2_BUFFERS = [6, 10, 14, 5, 7, 12, 3]    # variant 5: buffer sizes; capacity() must be floor2(size) - 1
 CAPS = [1, 3, 7, 15]
 STEP_FUEL = 4000        # global step limit of a run (both sides; harness/C11/main.cpp uses the same number)
@@ -341,9 +341,9 @@ def evaluate(ctx, model, impl, lin, cases, tag, stats):
         stats["ran"] += 1
         mg = strip_ghost(m)
         stats["steps"] += len(i["lines"])
-        d = conc_check.compare(mg, i) if c["cfg"][3] != 5 else None     # variant 5 is observable only
+        d = conc_check.compare(mg, i)
         if c["cfg"][3] == 5:
-            stats["observable_only"] = stats.get("observable_only", 0) + 1
+            stats["nonpow2"] = stats.get("nonpow2", 0) + 1
         if d is not None:
             stats["diverged"] += 1
             first_div = first_div or (c, d)
@@ -402,6 +402,11 @@ def report_found(ctx, found):
 
 def run(ctx):
     props = ["Properties/Properties_C11.v"]
+    # Properties_C11 cites the equality of the model's counter with the GENERATED translation of
+    # cds/details/bit_reverse_counter.h (Gen_brc, shared with C26): regenerate it from the tree under test first
+    rc_g, out_g = vcheck.sh([sys.executable, os.path.join(vcheck.VERIF, "tools", "cxx2v", "gen_all.py")], timeout=600,
+                            env={"CXX2V_UNITS": os.path.join(vcheck.VERIF, "tools", "cxx2v", "units_C26.json"), "VERIF_REPO": vcheck.REPO})
+    gen_info = {"cmd": "CXX2V_UNITS=tools/cxx2v/units_C26.json python3 tools/cxx2v/gen_all.py", "rc": rc_g, "out": out_g.strip()[-300:]}
     res = vcheck.coq_build(props)
     ctx.coq_evidence(res)
     model = conc_check.build_model(ctx, "Extract_MsPq.v")
@@ -482,17 +487,6 @@ def run(ctx):
         fc_ran = True
         if os.environ.get("VERIF_VERBOSE"): ctx.log("FCPriorityQueue half (checks/C11fc.py) done")
 
-    # non-gating extra: the model's hand-written bit_reverse_counter equals the generated translation (Gen_brc, C26).
-    # Gen_brc.v is regenerated by every run of C26 (possibly from a scratch $VERIF_REPO), so a failure to build here is
-    # recorded, not reported: the counter's behaviour is covered by the step correspondence and the monitors above.
-    rc_t, out_t = vcheck.sh(["make", "-j%d" % vcheck.NCPU, "Proofs/MsPqBrcGen.vo", "Proofs/MsPqBrcAll.vo"], cwd=vcheck.COQ, timeout=600)
-    tie = {"files": ["coq/Proofs/MsPqBrcGen.v", "coq/Proofs/MsPqBrcAll.v"],
-           "theorems": ["brc_inc_is_generated", "brc_dec_is_generated", "st_closed", "slot_closed", "slot_range_all", "slot_inj_all",
-                        "dec_st_all", "slot_parent_all", "slot_left_all  (counter facts for every count < 2^62 from the C26 closed form)"],
-           "built": rc_t == 0}
-    if rc_t != 0:
-        tie["error"] = out_t[-400:]
-
     ctx.coverage.update({
         "evaluations": len(cases), "distinct_nontrivial": len(stats["contended"]),
         "rule": "program x schedule pairs on MSPriorityQueue (1-4 threads, 1-4 push/pop operations each [single-thread programs up to 2*cap+7], "
@@ -500,8 +494,8 @@ def run(ctx):
                 "sequential, and phase-structured [pushers run to completion, then poppers]); distinct = distinct model event logs; "
                 "non-trivial = some thread found a lock taken and spun (load in the TATAS loop)",
         "distinct_event_logs": len(stats["shapes"]), "impl_steps_compared": stats["steps"], "diverged": stats["diverged"],
-        "traces_validated_against_impl": stats["ran"] - stats["diverged"] - stats.get("observable_only", 0), "corpus_cases": ncorpus,
-        "observable_only_cases(non-power-of-two bounds-checked buffers)": stats.get("observable_only", 0),
+        "traces_validated_against_impl": stats["ran"] - stats["diverged"], "corpus_cases": ncorpus,
+        "of_which_non_power_of_two_bounds_checked_buffers": stats.get("nonpow2", 0),
         "operations": stats["ops"], "push_failed_full(model ghost events)": stats["push_full"], "pop_empty": stats["pop_empty"],
         "model_threads_stopped(fuel/ub)": stats["model_stopped"],
         "by_capacity": stats["by_cap"], "by_variant": stats["by_variant"], "by_kind": stats["by_kind"],
@@ -513,7 +507,7 @@ def run(ctx):
         "modelled": "cds::intrusive::MSPriorityQueue push/pop/heapify_after_push/heapify_after_pop + bit_reverse_counter inc/dec; "
                     "cds::container::MSPriorityQueue runs the same atomic accesses (checked by the same correspondence)",
         "fc_part_ran": fc_ran, "fc": fc_stats,
-        "counter_tied_to_generated_code(non-gating)": tie, "asan_non_power_of_two_buffers": asan, "coqchk(thorough tier)": coqchk,
+        "gen_brc_regenerated": gen_info, "asan_non_power_of_two_buffers": asan, "coqchk(thorough tier)": coqchk,
         "fc_part": "checks/C11fc.py run_fc(ctx)" if fc_ran else "checks/C11fc.py not present: the FCPriorityQueue half of C11 was NOT checked in this run",
     })
     return ctx.finish(vcheck.STD_TRUSTED + ["hook layer: khizmax_libcds_verif::atomic<T>, baton scheduler, event log (hooks/include)",
